@@ -66,8 +66,43 @@ func (*Engine).pruneSurvivors
   loop 1 invariant seqeq(kept, keepFrom(arr($s), $i, heapof(run.startSeq), nextStart))
   loop 1 invariant forall(i, 0, len(kept), kept[i].startSeq >= nextStart)
 
-extern (*Engine).project
+func copyRow
   props C15
+  ensures a-fresh-map-with-exactly-the-columns-and-values-of-the-row: fresh(result) && forallv(k, "", (dom(result, k) <==> dom(r, k)) && (dom(r, k) ==> result[k] == r[k]))
+  loop 1 invariant fresh(out) && forallv(k, "", (dom(out, k) <==> $visited[k] && dom(r, k)) && (dom(out, k) ==> out[k] == r[k]))
+
+// the output row of a match at row cur: without MEASURES a copy of that row; with ALL ROWS PER MATCH that row's columns
+// plus the measures; with ONE ROW PER MATCH the measures only
+func (*Engine).evalMeasures
+  props C15
+  option assumed_frame
+  requires 0 <= cur && cur < len(rows)
+  before copyRow the-row-copied-is-the-current-row-of-the-match: $arg0 == rows[cur]
+  count copies := copyRow
+  atreturn one-row-per-match-exposes-the-measures-only: len(e.measures) > 0 && e.spec.RowsPerMatch != types.RowsPerMatchAll ==> $copies == 0 && fresh(result)
+  atreturn otherwise-the-current-rows-columns-are-there: len(e.measures) == 0 || e.spec.RowsPerMatch == types.RowsPerMatchAll ==> $copies == 1
+
+extern (*Engine).evalMeasure
+  props C15
+
+// every measure is evaluated with its own prepared expression over this match at the current row and lands under its own alias
+func (*Engine).evalMeasures$1
+  props C15
+  requires out != nil
+  modifies mapof(out)
+  before evalMeasure each-measure-uses-its-own-prepared-expression-at-the-current-row: $arg1 == e.measurePrep[i] && $arg2 == rows && $arg3 == labels && $arg4 == cur && $arg5 == c.matchNo
+  observe val := evalMeasure
+  loop 1 invariant forall(j, 0, $i, dom(out, e.measures[j].Alias))
+  ensures every-measure-alias-is-present: forall(j, 0, len(e.measures), dom(out, e.measures[j].Alias))
+
+// ONE ROW PER MATCH projects the measures once, at the last row of the match; ALL ROWS PER MATCH once per row, in row
+// order, each at its own row (running semantics)
+func (*Engine).project
+  props C15
+  before evalMeasures measures-are-evaluated-over-this-match-at-the-right-row: $arg1 == c && $arg2 == rows && $arg3 == labels && $arg4 == ite(e.spec.RowsPerMatch == types.RowsPerMatchAll, i, len(rows) - 1)
+  atreturn one-row-per-match-gives-one-row: e.spec.RowsPerMatch != types.RowsPerMatchAll ==> len(result) == ite(len(rows) == 0, 0, 1)
+  atreturn all-rows-per-match-gives-a-row-per-matched-row: e.spec.RowsPerMatch == types.RowsPerMatchAll ==> len(result) == len(rows)
+  loop 1 invariant len(out) == $i && e.spec.RowsPerMatch == types.RowsPerMatchAll
 
 func (*Engine).emitOne
   props C15
